@@ -815,11 +815,17 @@ func (ch *Channel) canSend() bool {
 // Call before calling nextPacketMsg()
 // Goroutine-safe
 func (ch *Channel) isSendPending() bool {
-	if len(ch.sending) == 0 {
+	// ch.sending == nil means no message is in flight; a message in flight is never nil, so that
+	// an empty message (still to be sent as one EOF packet) is not mistaken for "nothing pending"
+	// and overwritten by the next one in the queue.
+	if ch.sending == nil {
 		if len(ch.sendQueue) == 0 {
 			return false
 		}
 		ch.sending = <-ch.sendQueue
+		if ch.sending == nil {
+			ch.sending = []byte{}
+		}
 	}
 	return true
 }
